@@ -395,11 +395,17 @@ fn site_key(site: &str, key: &str) -> String {
 
 /// `pick(step_index, parked thread ids)` → thread id to run (must be one of the parked ones).
 ///
-/// `respect_lock` (variant `fixed`: the log mutex is held from the log step to the end of the
-/// in-memory apply): a thread parked at the entry of a durable write of a non-cache key is not
-/// offered to `pick` while another thread is between its log step and the end of its operation
-/// (it would block on the mutex, which the scheduler can only detect by a timeout).
-fn run_real(progs: &[Vec<Op>], wal: Option<SyncMode>, respect_lock: bool, mut pick: impl FnMut(usize, &[usize]) -> Option<usize>) -> RunOut {
+/// `respect_lock`: the log mutex is held from the log step of a durable write to the end of its
+/// in-memory apply (repo dfea2ecb).  The harness mirrors the mutex from the yield trace: a thread
+/// parked at the entry of a durable write of a non-cache key is not offered to `pick` while
+/// another thread is between its log step and the end of its operation (it would block on the
+/// real mutex, which the scheduler can only detect by its 30 ms stall timeout).  `false` only in
+/// `mutex_probe`, which asks the real mutex.
+///
+/// `exclusive_emb`: the hypothesis of `emb_linearizable_partial` — a thread parked at the entry of
+/// an operation on an `emb:` key is not offered while another thread is inside an operation on the
+/// same key (parked at one of its `router.*` yield points).
+fn run_real(progs: &[Vec<Op>], wal: Option<SyncMode>, respect_lock: bool, exclusive_emb: bool, mut pick: impl FnMut(usize, &[usize]) -> Option<usize>) -> RunOut {
     let dir = tempfile::tempdir().expect("tempdir");
     let wal_path = dir.path().join("store.wal");
     let cfg = wal.map(|m| WalConfig { sync_mode: m, ..WalConfig::default() });
@@ -445,7 +451,14 @@ fn run_real(progs: &[Vec<Op>], wal: Option<SyncMode>, respect_lock: bool, mut pi
             }
         }
         let held = lock_on && in_cs.iter().any(|b| *b);
-        let cand: Vec<usize> = (0..parked.len()).filter(|i| !(held && takes_lock(&parked[*i]))).collect();
+        let emb_busy = |i: usize| {
+            let x = &parked[i];
+            exclusive_emb
+                && x.1.starts_with("store.")
+                && x.2.starts_with("emb:")
+                && parked.iter().any(|y| y.0 != x.0 && y.1.starts_with("router.") && y.2 == x.2)
+        };
+        let cand: Vec<usize> = (0..parked.len()).filter(|i| !(held && takes_lock(&parked[*i])) && !emb_busy(*i)).collect();
         let ids: Vec<usize> = cand.iter().map(|i| parked[*i].0).collect();
         let want = pick(eff, &ids);
         eff += 1;
@@ -665,6 +678,16 @@ fn classify_nonlin(recs: &[HRec]) -> (String, Option<String>) {
     ("scan".to_string(), None)
 }
 
+/// two operations of different threads on one `emb:` key overlap in time (the situation
+/// `emb_linearizable_partial` excludes; the root cause of the known `emb:` findings)
+fn emb_ops_overlap(recs: &[HRec]) -> bool {
+    recs.iter().enumerate().any(|(i, a)| {
+        recs.iter().skip(i + 1).any(|b| {
+            a.t != b.t && a.op.key().map_or(false, |k| k.cls == Cls::E) && a.op.key() == b.op.key() && a.inv <= b.ret && b.inv <= a.ret
+        })
+    })
+}
+
 // ------------------------------------------------------------------ generators
 
 struct Gen {
@@ -726,7 +749,8 @@ struct Ctx<'a> {
     viol_count: BTreeMap<String, u32>,
     budget_hits: u64,
     stalls: u64,
-    fixed: bool,
+    /// schedule so that no two operations on one `emb:` key overlap (see `run_real`)
+    exclusive_emb: bool,
 }
 
 impl Ctx<'_> {
@@ -744,7 +768,7 @@ impl Ctx<'_> {
         let mut out = None;
         for _attempt in 0..3 {
             let mut r2 = rng.clone();
-            let o = run_real(progs, wal, self.fixed, |i, ids| match sched {
+            let o = run_real(progs, wal, true, self.exclusive_emb, |i, ids| match sched {
                 Some(s) => s.get(i).copied(),
                 None => Some(ids[r2.below(ids.len() as u64) as usize]),
             });
@@ -783,12 +807,6 @@ impl Ctx<'_> {
                 self.rep.hit("overlapping_multi_step_op");
             }
         }
-        if o.deviated && self.fixed && wal.is_some() && sched.is_some() {
-            self.rep.hit("scripted_schedule_not_executable_under_log_mutex");
-            self.rep.observe(json!({"line": format!("run 1 {} {}", show_progs(progs), show_sched(sched.unwrap())),
-                "note": "variant fixed: the scripted schedule asks a thread to log while another holds the log mutex; it is not executable"}));
-            return None;
-        }
         if o.deviated {
             self.rep.disagree(&format!("{stream}.schedule"), input(), "scripted thread was not parked", "schedule is executable");
         }
@@ -825,6 +843,44 @@ impl Ctx<'_> {
         Some(o)
     }
 
+    /// Ask the REAL log mutex: run a scripted schedule without the harness-side mirror.  `sched`
+    /// grants a second durable writer of a non-cache key while the first is between its log step
+    /// and the end of its apply.  On the current code that thread blocks in `Mutex::lock` (the
+    /// scheduler reports it `blocked` after its 30 ms stall window) and runs after the holder has
+    /// applied; the final image, log and recovered image must be the model's (whose `step` leaves a
+    /// blocked thread where it is).  If the mutex were released before the apply (the code before
+    /// dfea2ecb) the script executes as written and the durable oracle reports the reversal.
+    fn mutex_probe(&mut self, progs: &[Vec<Op>], sched: &[usize]) {
+        let o = run_real(progs, Some(SyncMode::Immediate), false, false, |i, _| sched.get(i).copied());
+        let line = format!("run 1 {} {}", show_progs(progs), show_sched(sched));
+        self.rep.case("probe.log_mutex", Some(&line));
+        self.rep.hit(if o.stalled { "probe:second_durable_writer_blocked_on_real_log_mutex" } else { "probe:second_durable_writer_not_blocked" });
+        if o.panicked {
+            self.rep.disagree("probe.log_mutex.panic", json!({"line": line}), "a worker thread panicked", "");
+        }
+        // the model, given the grants of the real run twice over (a blocked pick and a pick of a
+        // finished thread are no-ops there), reaches the same final state
+        let twice: Vec<usize> = o.sched.iter().chain(o.sched.iter()).copied().collect();
+        let mline = format!("run 1 {} {}", show_progs(progs), show_sched(&twice));
+        let ans = self.model.ask(&mline);
+        let mut parts: BTreeMap<&str, &str> = BTreeMap::new();
+        for p in ans.split(" | ") {
+            if let Some((a, b)) = p.split_once(' ') {
+                parts.insert(a, b);
+            } else if let Some(q) = p.strip_prefix("q=") {
+                parts.insert("q", q);
+            }
+        }
+        let input = || json!({"line": mline, "scripted": line, "real_trace": o.trace});
+        self.rep.compare("probe.log_mutex.image", input, &o.image, parts.get("image").unwrap_or(&"?"));
+        self.rep.compare("probe.log_mutex.quiescent", input, "1", parts.get("q").unwrap_or(&"?"));
+        if let (Some(w), Some(ri)) = (&o.wal, &o.rimage) {
+            self.rep.compare("probe.log_mutex.wal_records", input, w, parts.get("wal").unwrap_or(&"?"));
+            self.rep.compare("probe.log_mutex.recovered_image", input, ri, parts.get("rimage").unwrap_or(&"?"));
+        }
+        self.durable_oracle(progs, true, &o, &line, &[]);
+    }
+
     fn oracles(&mut self, progs: &[Vec<Op>], wal: bool, o: &RunOut, line: &str) {
         // (a) linearizability of the recorded real history
         let (ok, budget) = linearizable(&o.hist);
@@ -844,8 +900,13 @@ impl Ctx<'_> {
             .collect();
         for k in &incoherent {
             let wrote_vec_durably = progs.iter().flatten().any(|op| matches!(op, Op::PutD(k2, v) if k2 == k && v.vec != VecF::N));
+            let key_ops: Vec<HRec> = o.hist.iter().filter(|r| r.op.key() == Some(*k)).cloned().collect();
             let class = if k.cls != Cls::E && k.cls != Cls::C && wrote_vec_durably {
                 "tensor_store.slab_router.put_durable/non_emb_key_with_vector_stays_in_scan_after_delete".to_string()
+            } else if k.cls == Cls::E && emb_ops_overlap(&key_ops) {
+                // operations on the key overlapped: the final reads extend the history of the key to
+                // one that no sequential order explains (get says absent, exists / scan say present)
+                "tensor_store/emb_history_not_linearizable".to_string()
             } else {
                 format!("tensor_store.slab_router/quiescent_{}_key_get_exists_scan_disagree", k.cls.name())
             };
@@ -871,10 +932,14 @@ impl Ctx<'_> {
                 return self.durable_oracle(progs, wal, o, line, &incoherent);
             }
             let input = json!({"line": line, "real_history": o.hist_s, "real_trace": o.trace});
+            // the known findings have one root cause: two operations on one emb: key overlap.  A
+            // non-linearizable history WITHOUT such an overlap contradicts `emb_linearizable_partial`
+            // (and `single_step_ops_linearizable`) and gets a class of its own.
+            let sfx = if emb_ops_overlap(&o.hist) { "" } else { "_without_overlapping_emb_ops" };
             match mix {
-                Some(what) => self.violation("tensor_store.slab_router.emb/get_mixes_two_puts", &what, input),
+                Some(what) => self.violation(&format!("tensor_store.slab_router.emb/get_mixes_two_puts{sfx}"), &what, input),
                 None => self.violation(
-                    &format!("tensor_store/{cls}_history_not_linearizable"),
+                    &format!("tensor_store/{cls}_history_not_linearizable{sfx}"),
                     "no order of the completed operations that respects real time is a legal sequential execution of the key→value map",
                     input,
                 ),
@@ -940,8 +1005,6 @@ fn main() {
     );
     let mut model = Model::spawn(&args.driver);
     let root = Rng::new(args.seed);
-    // `--variant fixed`: /repo has proposed/C11-durable-apply-under-log-mutex.diff applied
-    let fixed = args.extra.windows(2).any(|w| w[0] == "--variant" && w[1] == "fixed");
 
     if let Some(path) = &args.replay {
         // replay file: {"failing_input": {"line": "run <wal> <progs> <sched>"}}
@@ -951,7 +1014,7 @@ fn main() {
         if f.len() == 4 {
             if let Some(progs) = parse_progs(f[2]) {
                 let sched = parse_sched(f[3]);
-                let mut ctx = Ctx { rep: &mut rep, model: &mut model, viol_count: BTreeMap::new(), budget_hits: 0, stalls: 0, fixed };
+                let mut ctx = Ctx { rep: &mut rep, model: &mut model, viol_count: BTreeMap::new(), budget_hits: 0, stalls: 0, exclusive_emb: false };
                 let mut r = root.fork("replay");
                 let wal = if f[1] == "1" { Some(SyncMode::Immediate) } else { None };
                 if let Some(o) = ctx.case("replay", &progs, wal, Some(&sched), &mut r, true) {
@@ -964,37 +1027,87 @@ fn main() {
     }
 
     let scale: u64 = if args.thorough { 12 } else { 1 };
-    let mut ctx = Ctx { rep: &mut rep, model: &mut model, viol_count: BTreeMap::new(), budget_hits: 0, stalls: 0, fixed };
+    let mut ctx = Ctx { rep: &mut rep, model: &mut model, viol_count: BTreeMap::new(), budget_hits: 0, stalls: 0, exclusive_emb: false };
 
-    // ---- (ii) the Lean witness interleavings, replayed on the real store
-    for (name, class) in [
-        ("emb_mixture", "tensor_store.slab_router.emb/get_mixes_two_puts"),
-        ("durable_order", "tensor_store.put_durable/durable_order_differs_from_memory_order"),
-    ] {
+    // ---- (ii) the Lean witness interleaving of `emb_mixture_witness`, replayed on the real store
+    {
+        let (name, class) = ("emb_mixture", "tensor_store.slab_router.emb/get_mixes_two_puts");
         let w = ctx.model.ask(&format!("witness {name}"));
         let f: Vec<&str> = w.split(' ').collect();
-        let (Some(progs), true) = (f.get(1).and_then(|p| parse_progs(p)), f.len() == 3) else {
-            ctx.rep.disagree("witness.driver", json!({"witness": name}), "", &w);
-            continue;
-        };
-        let sched = parse_sched(f[2]);
-        let wal = if f[0] == "1" { Some(SyncMode::Immediate) } else { None };
-        let mut r = root.fork(name);
-        let before = ctx.viol_count.get(class).copied().unwrap_or(0);
-        let o = ctx.case(&format!("witness.{name}"), &progs, wal, Some(&sched), &mut r, true);
-        let after = ctx.viol_count.get(class).copied().unwrap_or(0);
-        match o {
-            Some(o) => {
-                if after > before {
-                    ctx.rep.hit(&format!("witness_reproduced_on_real_store:{name}"));
-                } else {
-                    ctx.rep.hit(&format!("witness_not_reproduced_on_real_store:{name}"));
-                    ctx.rep.observe(json!({"witness": name, "real_history": o.hist_s, "image": o.image, "recovered": o.rimage}));
+        match (f.get(1).and_then(|p| parse_progs(p)), f.len() == 3) {
+            (Some(progs), true) => {
+                let sched = parse_sched(f[2]);
+                let wal = if f[0] == "1" { Some(SyncMode::Immediate) } else { None };
+                let mut r = root.fork(name);
+                let before = ctx.viol_count.get(class).copied().unwrap_or(0);
+                let o = ctx.case(&format!("witness.{name}"), &progs, wal, Some(&sched), &mut r, true);
+                let after = ctx.viol_count.get(class).copied().unwrap_or(0);
+                match o {
+                    Some(o) if after > before => {
+                        let _ = o;
+                        ctx.rep.hit(&format!("witness_reproduced_on_real_store:{name}"));
+                    }
+                    Some(o) => {
+                        ctx.rep.hit(&format!("witness_not_reproduced_on_real_store:{name}"));
+                        ctx.rep.observe(json!({"witness": name, "real_history": o.hist_s, "image": o.image, "recovered": o.rimage}));
+                    }
+                    None => ctx.rep.disagree("witness.stalled", json!({"witness": name}), "scheduler stalled three times", ""),
                 }
             }
-            None if ctx.fixed && name == "durable_order" => ctx.rep.hit("witness_not_executable_on_real_store:durable_order"),
-            None => ctx.rep.disagree("witness.stalled", json!({"witness": name}), "scheduler stalled three times", ""),
+            _ => ctx.rep.disagree("witness.driver", json!({"witness": name}), "", &w),
         }
+    }
+
+    // ---- the interleaving of `durable_order_witness` (executable on the code before dfea2ecb only)
+    //      and a put/delete variant, asked of the REAL log mutex (no harness-side mirror)
+    {
+        let w = ctx.model.ask("witness durable_order");
+        let f: Vec<&str> = w.split(' ').collect();
+        match (f.get(1).and_then(|p| parse_progs(p)), f.len() == 3) {
+            (Some(progs), true) => ctx.mutex_probe(&progs, &parse_sched(f[2])),
+            _ => ctx.rep.disagree("witness.driver", json!({"witness": "durable_order"}), "", &w),
+        }
+        let k = Key { cls: Cls::G, id: 1 };
+        let (v1, v2) = (Val { tag: 1, vec: VecF::N }, Val { tag: 2, vec: VecF::N });
+        // A: put, then delete-log;  B: put-log (must block), A: delete-apply, B: put-apply
+        ctx.mutex_probe(&[vec![Op::PutD(k, v1), Op::DelD(k)], vec![Op::PutD(k, v2)]], &[0, 0, 0, 1, 1, 0]);
+    }
+
+    // ---- the known findings, each by a directed schedule (deterministic for every seed)
+    {
+        let mut r = root.fork("known");
+        let e1 = Key { cls: Cls::E, id: 1 };
+        let p1 = Key { cls: Cls::P, id: 1 };
+        let g = |t: u32| Val { tag: t, vec: VecF::Good(t) };
+        // two overlapping deletes of emb:1 both succeed (the second passes the existence check
+        // between the first one's slab delete and its index removal)
+        ctx.case(
+            "directed.known.emb_two_deletes_both_ok",
+            &[vec![Op::Put(e1, g(1)), Op::Del(e1)], vec![Op::Del(e1)]],
+            None,
+            Some(&[0, 0, 0, 0, 1, 0, 0, 1, 1]),
+            &mut r,
+            true,
+        );
+        // a scan lists emb:1 from the entity index, then a get of it says NotFound: the put has
+        // not yet stored vector and metadata
+        ctx.case(
+            "directed.known.scan_sees_emb_key_before_metadata",
+            &[vec![Op::Put(e1, g(1))], vec![Op::Scan(Some(Cls::E)), Op::Get(e1)]],
+            None,
+            Some(&[0, 1, 1, 1, 0, 0]),
+            &mut r,
+            true,
+        );
+        // sequential: put_durable of user:1 with a vector, delete_durable, scan still lists it
+        ctx.case(
+            "directed.known.nonemb_vector_key_deleted_still_scanned",
+            &[vec![Op::PutD(p1, g(1)), Op::Get(p1), Op::DelD(p1), Op::Get(p1), Op::Ex(p1), Op::Scan(Some(Cls::P))]],
+            Some(SyncMode::Immediate),
+            None,
+            &mut r,
+            true,
+        );
     }
 
     // ---- directed small scenarios: every op kind × every class, sequential and 2-thread
@@ -1037,6 +1150,33 @@ fn main() {
         }
     }
 
+    // ---- the hypothesis of `emb_linearizable_partial` on the real store: any programs of
+    //      put / get / delete / exists / scan, schedules in which no two operations on one emb: key
+    //      overlap (scans and operations on other keys overlap freely) — every history must be
+    //      linearizable and the quiescent views coherent
+    {
+        ctx.exclusive_emb = true;
+        let mut r = root.fork("random.emb_no_overlap_on_one_key");
+        let mut g = Gen { next_tag: 0 };
+        for i in 0..(200 * scale) {
+            let nthreads = 2 + (i % 7) as usize;
+            let classes: &[Cls] = if i % 2 == 0 { &[Cls::E] } else { &CLASSES };
+            let progs = g.progs(&mut r, false, classes, nthreads);
+            let before: u32 = ctx.viol_count.values().sum();
+            if let Some(o) = ctx.case("random.emb_no_overlap_on_one_key", &progs, None, None, &mut r, true) {
+                if emb_ops_overlap(&o.hist) {
+                    ctx.rep.disagree("random.emb_no_overlap_on_one_key.schedule", json!({"real_history": o.hist_s}), "two operations on one emb: key overlapped", "exclusive schedule");
+                }
+                let after: u32 = ctx.viol_count.values().sum();
+                ctx.rep.hit(if after == before { "oracle:no_overlap_history_linearizable_and_coherent" } else { "oracle:no_overlap_history_VIOLATION" });
+                if o.hist.iter().any(|a| a.ret > a.inv && o.hist.iter().any(|b| b.t != a.t && a.inv <= b.ret && b.inv <= a.ret)) {
+                    ctx.rep.hit("no_overlap_run_with_concurrent_multi_step_emb_op");
+                }
+            }
+        }
+        ctx.exclusive_emb = false;
+    }
+
     let (budget_hits, stalls) = (ctx.budget_hits, ctx.stalls);
     let counts = ctx.viol_count.clone();
     drop(ctx);
@@ -1049,6 +1189,8 @@ fn main() {
         "site:router.put_durable.after_log", "site:router.delete_durable.after_log",
         "threads:2", "threads:3", "threads:4", "threads:5", "threads:6", "threads:7", "threads:8",
         "overlapping_multi_step_op", "oracle:history_linearizable", "oracle:recovered_equals_memory",
+        "probe:second_durable_writer_blocked_on_real_log_mutex", "witness_reproduced_on_real_store:emb_mixture",
+        "oracle:no_overlap_history_linearizable_and_coherent", "no_overlap_run_with_concurrent_multi_step_emb_op",
     ]
     .iter()
     .map(|s| s.to_string())
